@@ -74,3 +74,10 @@ pub static PLAIN_TABLE: [u8; 4] = [1, 2, 3, 4];
 pub fn reflects<T>() -> (&'static str, usize) {
     (core::any::type_name::<T>(), core::mem::size_of::<T>())
 }
+
+// E7 ordering of backend-typed values (name-based control: a type called Scalar)
+#[derive(PartialEq, Eq, PartialOrd, Ord, Clone, Copy)]
+pub struct Scalar(pub u64);
+pub fn orders(a: Scalar, b: Scalar) -> Scalar {
+    core::cmp::max(a, b)
+}
